@@ -184,6 +184,8 @@ func socketPairConns() (net.Conn, net.Conn) {
 	return mk(fds[0]), mk(fds[1])
 }
 
+func sysWrite(fd int, b []byte) (int, error) { return syscall.Write(fd, b) }
+
 // trackConn makes sure a connection object created by the harness is closed through the object when the execution is
 // torn down (never only by descriptor number: its finalizer would close that number again at some later time, when
 // it may belong to a later execution).
